@@ -26,3 +26,13 @@ func (b StubSASL) Authenticate(mech string) (sasl.Server, error) {
 		return b.S.Login(username, password)
 	}), nil
 }
+
+// Drain returns the log lines collected so far and empties the log (long-running checks that
+// open very many connections on one server would otherwise copy an ever-growing log).
+func (l *Logger) Drain() []string {
+	l.mu.Lock()
+	defer l.mu.Unlock()
+	out := l.Lines
+	l.Lines = nil
+	return out
+}
